@@ -74,18 +74,30 @@ def run(ctx):
     timer = model.paths("timer")
     prune_calls = 0
     touch_ok = None
-    for p in timer:
-        for e, loops in all_events(p, ("call",)):
-            if e["callee"] == "AppNamespace.prune":
-                prune_calls += 1
+    from ..events import each_event as _each
+    for p, e, loops in _each(model, ["timer"], ("call",)):
+        if e["callee"] == "AppNamespace.prune":
+            prune_calls += 1
     ctx.require("R12.touch", prune_calls, 1, "calls of the per-app sweep on timer paths")
     done = set()
     ntouch = 0
     ncmp = 0
     nkeys = 0
     sc = scopemod.get(model)
-    for p in timer:
-        for e, loops in all_events(p, ("loop",)):
+    from ..events import each_event
+    # facts needed by the classification rule, computed once
+    old_param = None
+    old_coll = None
+    for p, e, loops in each_event(model, ["timer"], ("call", "sql")):
+        if e["k"] == "call" and e["callee"] == "AppNamespace.prune" and len(e["args"]) >= 2:
+            old_param = e["args"][1]
+        if e["k"] == "sql" and e["stmt"].kind == "delete" and \
+                e["stmt"].table == "mailboxes" and e["func"] == "AppNamespace.prune":
+            tt = (e["binds"]["where_eq"] or {}).get("id")
+            if tt is not None and tt[0] == "elem":
+                old_coll = strip_wrappers(tt[1])
+    if True:
+        for p, e, loops in each_event(model, ["timer"], ("loop",)):
             if id(e) in done or e["func"] != "AppNamespace.prune":
                 continue
             done.add(id(e))
@@ -129,7 +141,7 @@ def run(ctx):
             if it[0] == "rows":
                 st = interp.sql_sites.get(it[1])
                 if st is not None and st.table == "mailboxes":
-                    _classification(ctx, model, p, e, it)
+                    _classification(ctx, model, p, e, it, old_param, old_coll)
                     ncmp += 1
             # (c) delete loops
             for alt in e["alts"]:
@@ -149,12 +161,12 @@ def run(ctx):
                                     x["stmt"].table,
                                     x["stmt"].where.render() if x["stmt"].where else "no WHERE")
                         ctx.ob("R12.keys", construct_of(x), ok, x, why)
-        # deletes outside loops in prune
-        for e, loops in all_events(p, ("sql",)):
-            if e["func"] == "AppNamespace.prune" and e["stmt"].kind == "delete" and \
-                    e["db"] == "chan" and not any(l["func"] == "AppNamespace.prune" for l in loops):
-                ctx.ob("R12.keys", construct_of(e), False, e,
-                       "a sweep delete outside the per-element loops")
+    # deletes outside loops in prune
+    for p, e, loops in each_event(model, ["timer"], ("sql",)):
+        if e["func"] == "AppNamespace.prune" and e["stmt"].kind == "delete" and \
+                e["db"] == "chan" and not any(l["func"] == "AppNamespace.prune" for l in loops):
+            ctx.ob("R12.keys", construct_of(e), False, e,
+                   "a sweep delete outside the per-element loops")
     ctx.require("R12.touch", ntouch, 1, "touch loops over the mailbox registry")
     ctx.require("R12.cmp", ncmp, 1, "classification loops")
     ctx.require("R12.keys", nkeys, 5, "delete statements in the sweep")
@@ -217,28 +229,14 @@ def _nonempty_test(c):
     return v is not None and v == b
 
 
-def _classification(ctx, model, p, loop, rows):
+def _classification(ctx, model, p, loop, rows, old_param, old_coll):
     interp = model.interp
-    # which collection do the later delete loops over mailboxes iterate?
-    old_param = None
-    for e, _ in all_events(p, ("call",)):
-        if e["callee"] == "AppNamespace.prune" and len(e["args"]) >= 2:
-            old_param = e["args"][1]
     for alt in loop["alts"]:
         adds = [x for x, _ in flat_events(alt["events"]) if x["k"] == "coll_add"]
         ok1 = len(adds) == 1 and alt["out"] == "normal"
         ctx.ob("R12.cmp", "every mailbox row lands in exactly one set", ok1, loop,
                "" if ok1 else "an iteration of the classification adds the mailbox to %d "
                "sets" % len(adds))
-    # the old set = the collection iterated by the loop that deletes mailboxes
-    old_coll = None
-    for e, loops in all_events(p, ("sql",)):
-        if e["stmt"].kind == "delete" and e["stmt"].table == "mailboxes" and \
-                e["func"] == "AppNamespace.prune":
-            eq = e["binds"]["where_eq"] or {}
-            t = eq.get("id")
-            if t is not None and t[0] == "elem":
-                old_coll = strip_wrappers(t[1])
     if old_coll is None or old_coll[0] != "coll":
         ctx.ob("R12.cmp", "delete set is a collection filled by the classification", False,
                loop, "the mailbox delete loop does not iterate a classified set")
@@ -329,8 +327,11 @@ def _cutoff(ctx, model):
     ctx.ob("R12.cutoff", "sweep period is a positive constant", okp, tev,
            "" if okp else "period is %s" % show(period))
     n = 0
-    for p in model.paths("timer"):
-        for e, _ in all_events(p, ("call",)):
+    from ..events import each_event
+    prune_calls = [x for _, x, _ in each_event(model, ["timer"], ("call",))
+                   if x["callee"] == "AppNamespace.prune"]
+    for p, e, _ in each_event(model, ["timer"], ("call",)):
+        if True:
             if e["callee"] == "Server.prune_all_apps":
                 n += 1
                 a = e["args"]
@@ -351,8 +352,8 @@ def _cutoff(ctx, model):
                 ctx.ob("R12.cutoff", "timer passes (now, now - C) with C > period", ok, e,
                        "" if ok else why)
                 # down to prune in the same order
-                for x, _ in all_events(p, ("call",)):
-                    if x["callee"] == "AppNamespace.prune":
+                for x in prune_calls:
+                    if True:
                         oko = len(x["args"]) >= 2 and x["args"][0] == a[0] and x["args"][1] == a[1]
                         ctx.ob("R12.cutoff", "prune_all_apps passes (now, old) unchanged", oko,
                                x, "" if oko else "per-app sweep receives (%s)" % ", ".join(
